@@ -163,7 +163,14 @@ def _work(item):
         warnings.simplefilter("ignore")
         try:
             X = F.build(spec)
-            res = disk_undirected(X, spec) if spec["cls"] == "H" else disk_other(X, spec)
+            fn = disk_undirected if spec["cls"] == "H" else disk_other
+            res = fn(X, spec)
+            F.detour(X)
+            F.morph(X)
+            F.grow(X)
+            uniform = lambda ids: len({type(i) for i in ids}) <= 1  # noqa: E731 - one cast per column must suffice
+            if uniform(list(X.nodes)) and uniform(list(X.edges)):
+                res = list(res) + [(m, "[same object re-written after in-place edits] " + msg) for m, msg in fn(X, spec)]
         except RecursionError:
             raise
         except Exception as e:  # noqa: BLE001
